@@ -119,6 +119,8 @@ pub enum Cer {
     Assert { cred: u8, allow: bool },
     /// registration for user u (0 or 1)
     Register { user: u8 },
+    /// registration whose exclude list names held credential 0: must be refused, whatever the schedule
+    RegisterExcluded,
 }
 
 #[derive(Clone, Debug, Serialize, Deserialize, PartialEq, Eq, Hash)]
@@ -139,6 +141,8 @@ pub enum Done {
     Asserted { cred: Vec<u8>, counter: u32 },
     Registered { cred: Vec<u8> },
     Failed(u8),
+    /// a registration that had to be refused as excluded was refused
+    Excluded,
 }
 
 pub struct RunOut {
@@ -181,6 +185,24 @@ where
                 match auth.get_assertion(req).await {
                     Ok(r) => Done::Asserted { cred: r.credential.map(|c| c.id.to_vec()).unwrap_or_default(), counter: u32::from_be_bytes(r.auth_data.to_vec()[33..37].try_into().unwrap()) },
                     Err(e) => Done::Failed(e.into()),
+                }
+            }),
+            Cer::RegisterExcluded => Box::pin(async move {
+                let req = make_credential::Request {
+                    client_data_hash: vec![t as u8; 32].into(),
+                    rp: make_credential::PublicKeyCredentialRpEntity { id: RP.into(), name: None },
+                    user: passkey_types::webauthn::PublicKeyCredentialUserEntity { id: b"c19-user-x".to_vec().into(), display_name: "d".into(), name: "n".into() },
+                    pub_key_cred_params: cer::params(&[-7]),
+                    exclude_list: Some(vec![cer::descriptor(&held_id(0))]),
+                    extensions: None,
+                    options: make_credential::Options { rk: false, up: true, uv: true },
+                    pin_auth: None,
+                    pin_protocol: None,
+                };
+                match auth.make_credential(req).await.map_err(u8::from) {
+                    Ok(r) => Done::Registered { cred: r.auth_data.attested_credential_data.as_ref().map(|a| a.credential_id().to_vec()).unwrap_or_default() },
+                    Err(0x19) => Done::Excluded,
+                    Err(e) => Done::Failed(e),
                 }
             }),
             Cer::Register { user } => Box::pin(async move {
@@ -299,6 +321,14 @@ pub fn judge(cfg: &Config, out: &RunOut) -> Result<Verdict, String> {
     if out.deadlock {
         let stuck: Vec<usize> = out.results.iter().enumerate().filter(|(_, r)| r.is_none()).map(|(i, _)| i).collect();
         return Err(format!("deadlock: no ceremony is runnable but ceremonies {stuck:?} have not finished (schedule {:?})", out.choices));
+    }
+    // registrations that name a held credential in their exclude list must be refused in every schedule
+    for (t, c) in cfg.cers.iter().enumerate() {
+        if matches!(c, Cer::RegisterExcluded) {
+            if let Some(Done::Registered { .. }) = out.results.get(t).and_then(|r| r.as_ref()) {
+                return Err(format!("registration #{t} names a held credential of the RP in its exclude list but succeeded"));
+            }
+        }
     }
     // registrations
     for (t, r) in out.results.iter().enumerate() {
@@ -428,7 +458,7 @@ fn check_generated(ctx: &mut Ctx, case: &(Config, Vec<u8>)) -> Result<(), String
 }
 
 fn config(max_tasks: usize) -> impl Strategy<Value = Config> {
-    let cer = prop_oneof![3 => (0u8..2, proptest::bool::weighted(0.8)).prop_map(|(cred, allow)| Cer::Assert { cred, allow }), 2 => (0u8..2).prop_map(|user| Cer::Register { user })];
+    let cer = prop_oneof![6 => (0u8..2, proptest::bool::weighted(0.8)).prop_map(|(cred, allow)| Cer::Assert { cred, allow }), 4 => (0u8..2).prop_map(|user| Cer::Register { user }), 1 => Just(Cer::RegisterExcluded)];
     (prop_oneof![Just(Lock::ArcMutex), Just(Lock::ArcRwLock)], 0usize..3, proptest::collection::vec(0usize..4, 3), proptest::collection::vec(cer, 2..=max_tasks), prop_oneof![Just(5u32), Just(0), Just(1_000_000)]).prop_map(|(lock, store_yields, uv_yields, cers, counter)| Config { lock, store_yields, disc: (uv_yields.iter().sum::<usize>() % 3) as u8, uv_yields, cers, counter })
 }
 
@@ -450,15 +480,17 @@ pub fn run(ctx: &mut Ctx) {
         vec![Cer::Register { user: 0 }, Cer::Register { user: 0 }],
         vec![Cer::Register { user: 0 }, Cer::Register { user: 1 }],
         vec![Cer::Assert { cred: 0, allow: false }, Cer::Assert { cred: 0, allow: true }],
+        vec![Cer::RegisterExcluded, Cer::Register { user: 0 }],
+        vec![Cer::RegisterExcluded, Cer::Assert { cred: 0, allow: true }],
     ];
-    let max_uy = ctx.tier.pick(3usize, 4usize);
+    let max_uy = ctx.tier.pick(2usize, 4usize);
     for lock in [Lock::ArcMutex, Lock::ArcRwLock] {
         for cers in &pairs {
             for sy in 0..=2usize {
                 for uy0 in 0..=max_uy {
                     for uy1 in 0..=max_uy {
                         exhaustive_cfgs.push(Config { lock, store_yields: sy, uv_yields: vec![uy0, uy1, 0], cers: cers.clone(), counter: 5, disc: 0 });
-                        if uy0 + uy1 <= 1 && cers.iter().any(|c| matches!(c, Cer::Register { .. })) {
+                        if uy0 + uy1 <= 1 && cers.iter().any(|c| matches!(c, Cer::Register { .. } | Cer::RegisterExcluded)) {
                             for disc in [1u8, 2] {
                                 exhaustive_cfgs.push(Config { lock, store_yields: sy, uv_yields: vec![uy0, uy1, 0], cers: cers.clone(), counter: if disc == 1 { 0 } else { 5 }, disc });
                             }
